@@ -99,6 +99,11 @@ def run_bayer(W, cfg):
             W.ob(f'same frame, oversample {os2} after {os}', g2, W.array([[W.sum(img[w][i, j] * q[col2(i, j)][w] for w in range(nw)) for j in range(nc)] for i in range(nr)]))
     same = lt.detector.collect_charge_bayer(img, waves, W.array(q['R']), W.array(q['R']), W.array(q['R']), pat, oversample=os)
     W.ob('equal efficiencies reproduce the monochrome result', same, lt.detector.collect_charge(img, waves, W.array(q['R'])))
+    # ... also when the caller hands over one and the same array object for the three channels
+    one = W.array(q['G'])
+    same_obj = lt.detector.collect_charge_bayer(img, waves, one, one, one, pat, oversample=os)
+    W.ob('one efficiency array passed for all channels reproduces the monochrome result', same_obj, lt.detector.collect_charge(img, waves, W.array(q['G'])))
+    W.ob('the shared efficiency array is left untouched', one, W.array(q['G']))
 
 
 # ------------------------------------------------------------------ adc
